@@ -57,6 +57,11 @@ func runC18(c *Ctx, _ []string) {
 			{cfg: sCfg{"TEXT+UTF+EXE+PACK+MM+ROLZ", "NONE", 65536, 3, 0, 0, false}, shape: "mm", size: 250000, rjobs: 16},
 			{cfg: sCfg{"TEXT+UTF+PACK+MM+LZX", "HUFFMAN", 65536, 4, 32, 0, false}, shape: "b64", size: 250000, rjobs: 4},
 			{cfg: sCfg{"ROLZX", "RANGE", 65536, 2, 32, 0, false}, shape: "text", size: 150000, rjobs: 2},
+			// almost valid UTF-8 next to valid UTF-8 (a block rejected late by one codec instance must leave nothing behind for another one)
+			{cfg: sCfg{"UTF", "NONE", 65536, 2, 32, 0, false}, shape: "utf8bad", size: 200000, rjobs: 2},
+			{cfg: sCfg{"UTF", "HUFFMAN", 65536, 3, 32, 0, false}, shape: "utf8", size: 200000, rjobs: 3},
+			{cfg: sCfg{"TEXT+UTF", "NONE", 32768, 2, 0, 0, false}, shape: "utf8bad", size: 100000, rjobs: 1},
+			{cfg: sCfg{"UTF", "ANS0", 16384, 4, 64, 0, false}, shape: "utf8", size: 150000, rjobs: 4},
 			// blocks larger than the 256 KiB floor of the writer's input buffers, chains whose worst case exceeds the buffer
 			// (the task enlarges its own input buffer), at least 3 blocks per batch
 			{cfg: sCfg{"TEXT+UTF+EXE+PACK+MM+ROLZ", "NONE", 262144, 4, 32, 0, false}, shape: "mm", size: 1200000, rjobs: 4},
